@@ -388,11 +388,6 @@ fn main() {
     // {zero, 1-v}; thorough: every tuple gets the full fault set
     let faults_a: Vec<_> = faults.iter().filter(|(n, _)| tier.is_thorough() || ["+1", "zero", "random"].contains(n)).cloned().collect();
     let faults_b = faults_a.clone();
-    cx.run_cases("faults", &fcases, |(c, idxs, distinct)| {
-        let mut out = CaseOut::batch();
-        vgad::explore_faults(c, kof(c).unwrap(), idxs, if *distinct { &faults_b } else { &faults_a }, &mut out);
-        out
-    });
     // ---- phase 3: 2 deviations for small operations (N <= 40): all pairs x {+1, zero, 1-v}^2
     let f2: Vec<_> = vgad::default_faults(seed).into_iter().filter(|(n, _)| ["+1", "zero", "1-v"].contains(n)).collect();
     let mut pcases: Vec<(String, (Case, Vec<(u64, u64)>))> = vec![];
@@ -553,6 +548,15 @@ fn main() {
         });
         let _ = SOp::Bounded(1);
     }
+    // ---- the 1-deviation sweep over the registry is the longest group and runs last; its cases
+    // are ordered chunk-major (chunk 0 of every operation, then chunk 1, ...), so that a wall cap
+    // cuts every operation at the same depth instead of dropping whole operations
+    fcases.sort_by_key(|(k, _)| k.rsplit('#').next().and_then(|c| c.parse::<u64>().ok()).unwrap_or(0));
+    cx.run_cases("faults", &fcases, |(c, idxs, distinct)| {
+        let mut out = CaseOut::batch();
+        vgad::explore_faults(c, kof(c).unwrap(), idxs, if *distinct { &faults_b } else { &faults_a }, &mut out);
+        out
+    });
     let sat = cx.class_count("honest:honest:sat");
     let unsat = cx.class_count("honest:honest:unsat") + cx.class_count("honest:honest:synth-err") + cx.class_count("honest:honest:crash-unsat");
     cx.require(sat > 100 && unsat > 10, "need both satisfiable and out-of-domain cases");
